@@ -7,7 +7,7 @@ from . import _rulecommon as RC
 
 MANIFEST = dict(
     technique="runtime contract on apply_to of the nine rule classes (entry shadow of the whole tree, exit comparison by an independent exact rational evaluator at >= 12 assignments); corpus/generator/template/episode workloads",
-    text="Every rule application the workloads produce (all 11 rule/option instances, every match, also on already rewritten trees) is decided at exit of apply_to: the value of the whole expression before and after must agree exactly as rationals (1e-9*scale only when the rewrite folded floating-point constants). Every get_type arm of every rule is a required arm. Held on the applications observed.",
+    text="Every rule application the workloads produce (all 11 rule/option instances, every match, also on already rewritten trees) is decided at exit of apply_to: the value of the whole expression before and after must agree exactly as rationals (float folds are made exact by working out the rational each new float constant stands for; a tolerance is only the fallback). Applications are driven both on clone_from_root copies and as in-place chains on one evolving tree object, with long-lived rule instances whose applicability answers are cross-checked against fresh instances. Every get_type arm of every rule is a required arm. Held on the applications observed.",
     note="Trusts fractions.Fraction, our evaluator/scale model and sampling at >= 12 rational assignments; non-integer exponents are compared approximately on positive bases; equation-rooted trees are compared side by side for rules other than balanced move (solution sets are C02).",
     ref="DESIGN.md 3/C01",
 )
